@@ -25,7 +25,7 @@ from .callgraph import HEAP_MUTATORS, MUTATORS, CallGraph, CallSite
 from .loader import AnalysisError, FuncInfo, Program
 from .terms import (
     FALSE, NONE, TRUE, Term, Unrecognised, _BINSYM, _CMPSYM, canon_pred, const, diff_const, key,
-    strip_ver, subterms,
+    strip_ver, substitute, subterms,
 )
 from .types import TypeEnv, _name_of
 
@@ -608,14 +608,33 @@ class Evaluator:
                 phis[n] = ("sym", f"φ{lid}:{n}")
                 body_st.env[n] = phis[n]
             self._havoc_heap(body_st, mods)
+            filt: Tuple[Term, ...] = ()
             if is_for:
                 for n in tnames:
                     body_st.env[n] = ("sym", f"{n}∈{lid}")
                 if isinstance(node.target, (ast.Attribute, ast.Subscript)):
                     raise Unrecognised("loop target is not a name")
+                # `for x in (y for y in IT if C)` visits the items of IT that satisfy C
+                if it is not None and it[0] == "comp" and it[1] in ("listcomp", "genexp") and len(it[3]) == 1 and len(tnames) == 1 \
+                        and len(it[3][0][0]) == 1 and it[2] == ("bound", it[3][0][0][0]):
+                    el = ("sym", f"{tnames[0]}∈{lid}")
+                    bnd = ("bound", it[3][0][0][0])
+                    filt = tuple(substitute(c, {bnd: el}) for c in it[3][0][2])
+                    it = it[3][0][1]
             body_paths: List[Path] = []
             if is_for:
-                res = self._exec_block([body_st], node.body)
+                entered = [body_st]
+                res = []
+                for c in filt:
+                    nxt = []
+                    for s2 in entered:
+                        for s3, b in self._decide(s2, c, node.iter):
+                            if b:
+                                nxt.append(s3)
+                            else:
+                                res.append((s3, ("continue",)))
+                    entered = nxt
+                res = res + self._exec_block(entered, node.body)
             else:
                 res = []
                 for s2, b in self._decide_test(body_st, node.test):
@@ -1204,6 +1223,9 @@ class Evaluator:
             tgt = site.targets[0]
             if self.inline(tgt) or (self.auto_inline_trivial and self._trivial(tgt) and tgt.name != "__init__"):
                 return self._call_function(st, tgt, recv, args, dict(kws), e)
+            gbody = self._generator_as_genexp(tgt)
+            if gbody is not None:
+                return self._call_function(st, tgt, recv, args, dict(kws), e, body=gbody)
         # classify purity
         pure = False
         mods: Set[Tuple[str, str]] = set()
@@ -1268,7 +1290,37 @@ class Evaluator:
                     return True
         return False
 
-    def _call_function(self, st: _State, tgt: FuncInfo, recv: Optional[Term], args: List[Term], kws: Dict[str, Term], node: ast.AST, is_property: bool = False) -> List[Tuple[_State, Term]]:
+    def _generator_as_genexp(self, tgt: FuncInfo) -> Optional[List[ast.stmt]]:
+        """A private generator helper of the shape `for T in IT: [if C:] yield E` yields exactly the
+        items of the generator expression `(E for T in IT if C)`; both are lazy.  Returns the
+        equivalent body `return (E for T in IT if C)`, or None for any other shape."""
+        if tgt.outer is not None or tgt.is_abstract or not tgt.name.startswith("_") or tgt.name.startswith("__"):
+            return None
+        from .kit import anchor_names
+
+        if tgt.name in anchor_names():
+            return None
+        body = [x for x in tgt.node.body if not (isinstance(x, ast.Expr) and isinstance(x.value, ast.Constant))]
+        if len(body) != 1 or not isinstance(body[0], ast.For) or body[0].orelse:
+            return None
+        loop = body[0]
+        inner = loop.body
+        ifs: List[ast.expr] = []
+        while len(inner) == 1 and isinstance(inner[0], ast.If) and not inner[0].orelse:
+            ifs.append(inner[0].test)
+            inner = inner[0].body
+        if len(inner) != 1 or not isinstance(inner[0], ast.Expr) or not isinstance(inner[0].value, ast.Yield) or inner[0].value.value is None:
+            return None
+        if sum(1 for x in ast.walk(tgt.node) if isinstance(x, (ast.Yield, ast.YieldFrom))) != 1:
+            return None
+        ge = ast.GeneratorExp(elt=inner[0].value.value, generators=[ast.comprehension(target=loop.target, iter=loop.iter, ifs=ifs, is_async=0)])
+        ret = ast.Return(value=ge)
+        ast.copy_location(ge, loop)
+        ast.copy_location(ret, loop)
+        ast.fix_missing_locations(ret)
+        return [ret]
+
+    def _call_function(self, st: _State, tgt: FuncInfo, recv: Optional[Term], args: List[Term], kws: Dict[str, Term], node: ast.AST, is_property: bool = False, body: Optional[List[ast.stmt]] = None) -> List[Tuple[_State, Term]]:
         """Inline `tgt`: evaluate its body in the caller's state with a fresh environment."""
         a = tgt.node.args
         params = [x.arg for x in a.posonlyargs + a.args]
@@ -1318,7 +1370,7 @@ class Evaluator:
         self._push_tenv(self.cg.env(tgt))
         st.env = env
         try:
-            res = self._exec_block([st], tgt.node.body)
+            res = self._exec_block([st], body if body is not None else tgt.node.body)
         finally:
             self._pop_tenv()
             self._cur_func, self._depth, self._ctx = saved
